@@ -348,6 +348,7 @@ fn corrupt_oracle(c: &CorruptCase, ctx: &mut Ctx) -> CaseResult {
 	let n = sim.w.n;
 	h.check_manager(&sim, pick(c.objs[2], n))?;
 	let mut st = CorruptStats::default();
+	st.survey = std::env::var("C12_CORRUPT_SURVEY").is_ok();
 	let mut nonq = false;
 	// prefer non-quiescent monitor states
 	let mons: Vec<&Harvested> = {
@@ -374,6 +375,12 @@ fn corrupt_oracle(c: &CorruptCase, ctx: &mut Ctx) -> CaseResult {
 		corrupt_object(&cx, &o.bytes, &c.odd_value, &c.cuts[..c.cuts.len() / 2], &c.muts[..k], 0, &mut st)?;
 	}
 	ctx.sub_evaluations(st.odd_ok + st.even_err + st.prefixes + st.mutations_err + st.mutations_ok_same + st.mutations_ok_other);
+	for (k, _) in st.findings.iter() {
+		ctx.label(&format!("finding:{}", k));
+	}
+	for e in st.examples.iter().take(3) {
+		vcore::report(&format!("FINDING {}", e));
+	}
 	ctx.label_if(st.tail_ambiguous > 0, "tlv-tail-not-located");
 	ctx.label_if(st.tail_located > 0, "tlv-tail-located");
 	ctx.label_if(st.mutations_ok_other > 0, "mutation-read-as-different-object");
